@@ -15,11 +15,16 @@
   `s·E0 + u·E1 + E2`), its size is measured by the probe `collective_key_works` against the explicit
   worst-case bound derived in `harness/c14_probe.go`.
 
-  Findings proved as counterexamples on the model (and exhibited on the real code by the probes):
-    * `genEvaluationKey_ragged_*`      GenEvaluationKey/GenGaloisKey copy `len(m[0])` digits per row
-    * `evk_agg_decomposition_*`        AggregateShares does not compare the decompositions
-    * `gal_noP_panics`                 GaloisKeyGenProtocol.GenShare panics without auxiliary modulus
-    * `genshare_levelP_unchecked`      GenShare's LevelP test compares the share with itself
+  Defects found through this property and repaired in /repo (fixes/C14-*.diff); the model follows the
+  repaired code, the former model witnesses became positive statements:
+    * GenEvaluationKey/GenGaloisKey copied `len(m[0])` digits per row   → `evk_key_assembled` (any shape),
+                                                                          `genEvaluationKey_ragged_ok`
+    * AggregateShares did not compare the decompositions               → `mismatch_rejected_decomposition`
+    * GaloisKeyGenProtocol.GenShare panicked without auxiliary modulus  → `gal_collective_eq_single` has no
+                                                                          hypothesis on `LevelP`, `gal_noP_ok`
+    * GenShare's LevelP test compared the share with itself             → `mismatch_rejected_sk_levelP`
+  Recorded, not repaired (needs an API change): `RelinearizationKeyGenProtocol.AggregateShares` has no
+  validation and no error result (probe `mismatch_rejected kind=rkg_levelQ*`, key C14-rkg-agg-unchecked).
 -/
 import Lattigo.Proofs.MPKeys
 
@@ -51,24 +56,24 @@ theorem agg_tree_eq_fold {β : Type} [AddCommSemigroup β] (t : AggTree) (sh : N
     degree-zero shares (same levels, same decomposition shape) every tree succeeds and any two trees
     over permuted leaves give the same share.  `recv` is the receiver handed to each call
     (`id` for `AggregateShares(a, b, &a)`, a fresh allocation otherwise). -/
-theorem evk_agg_perm {α : Type} [AddCommSemigroup α] {lq : Nat} {lp : Int} {shape : List Nat}
-    (recv : GShare α → GShare α) (hrecv : ∀ s, Compat lq lp shape s → Compat lq lp shape (recv s))
+theorem evk_agg_perm {α : Type} [AddCommSemigroup α] {lq : Nat} {lp : Int} {b2 : Nat} {shape : List Nat}
+    (recv : GShare α → GShare α) (hrecv : ∀ s, Compat lq lp b2 shape s → Compat lq lp b2 shape (recv s))
     (sh : Nat → GShare α) (t₁ t₂ : AggTree) (hperm : t₁.leaves.Perm t₂.leaves)
-    (hc : ∀ i ∈ t₁.leaves, Compat lq lp shape (sh i)) :
+    (hc : ∀ i ∈ t₁.leaves, Compat lq lp b2 shape (sh i)) :
     ∃ g₁ g₂, t₁.evalM (fun x y => evkAggregate x y (recv x)) sh = .ok g₁ ∧
              t₂.evalM (fun x y => evkAggregate x y (recv x)) sh = .ok g₂ ∧ g₁.val = g₂.val ∧
              g₁.levelQ = g₂.levelQ ∧ g₁.levelP = g₂.levelP :=
   Lattigo.MP.evk_agg_perm recv hrecv sh t₁ t₂ hperm hc
 
-example : Compat (α := Int) 1 0 [1, 2] ⟨1, 0, 8, [[[5]], [[6], [7]]]⟩ :=
-  ⟨rfl, rfl, by unfold Deg0; decide⟩
+example : Compat (α := Int) 1 0 8 [1, 2] ⟨1, 0, 8, [[[5]], [[6], [7]]]⟩ :=
+  ⟨rfl, rfl, rfl, by unfold Deg0; decide⟩
 
 /-- the same for Galois shares with equal element tag -/
-theorem gal_agg_perm {α : Type} [AddCommSemigroup α] {lq : Nat} {lp : Int} {shape : List Nat} (g0 : Nat)
+theorem gal_agg_perm {α : Type} [AddCommSemigroup α] {lq : Nat} {lp : Int} {b2 : Nat} {shape : List Nat} (g0 : Nat)
     (recv : GalShare α → GalShare α)
-    (hrecv : ∀ s, Compat lq lp shape s.sh → Compat lq lp shape (recv s).sh)
+    (hrecv : ∀ s, Compat lq lp b2 shape s.sh → Compat lq lp b2 shape (recv s).sh)
     (sh : Nat → GalShare α) (t₁ t₂ : AggTree) (hperm : t₁.leaves.Perm t₂.leaves)
-    (hc : ∀ i ∈ t₁.leaves, (sh i).galEl = g0 ∧ Compat lq lp shape (sh i).sh) :
+    (hc : ∀ i ∈ t₁.leaves, (sh i).galEl = g0 ∧ Compat lq lp b2 shape (sh i).sh) :
     ∃ g₁ g₂, t₁.evalM (fun x y => galAggregate x y (recv x)) sh = .ok g₁ ∧
              t₂.evalM (fun x y => galAggregate x y (recv x)) sh = .ok g₂ ∧
              g₁.galEl = g0 ∧ g₂.galEl = g0 ∧ g₁.sh.val = g₂.sh.val := by
@@ -133,124 +138,125 @@ theorem evk_row (a w sOut e sIn : α) : phase (evkShareRow a sOut e w sIn) a sOu
     with `(sIn i, sOut i)` and its errors `e i` on the same CRP; the shares are aggregated along `t`.
     Then every call succeeds and the aggregate is EXACTLY what the single-party generator (the same
     function) writes for `(Σ sIn, Σ sOut, Σ e)`. -/
-theorem evk_collective_eq_single (lvIn lvOut : Nat) (crp w : Mat α) (out : GShare α)
+theorem evk_collective_eq_single (lvIn lvOut : Nat) (lvInP lvOutP : Int) (crp w : Mat α) (out : GShare α)
     (sIn sOut : Nat → α) (e : Nat → Mat α) (t : AggTree)
-    (hl : out.levelQ ≤ min lvIn lvOut) (hs : shapeOf out.val = shapeOf crp)
+    (hl : out.levelQ ≤ min lvIn lvOut) (hlp : out.levelP ≤ min lvInP lvOutP)
+    (hs : shapeOf out.val = shapeOf crp)
     (hw : shapeOf w = shapeOf crp) (he : ∀ i ∈ t.leaves, shapeOf (e i) = shapeOf crp)
     (recv : GShare α → GShare α)
-    (hrecv : ∀ s, Compat out.levelQ out.levelP (shapeOf crp) s →
-      Compat out.levelQ out.levelP (shapeOf crp) (recv s)) :
+    (hrecv : ∀ s, Compat out.levelQ out.levelP out.base2 (shapeOf crp) s →
+      Compat out.levelQ out.levelP out.base2 (shapeOf crp) (recv s)) :
     ∃ shares : Nat → GShare α,
-      (∀ i, evkGenShare lvIn lvOut (sIn i) (sOut i) crp w (e i) out = .ok (shares i)) ∧
+      (∀ i, evkGenShare lvIn lvOut lvInP lvOutP (sIn i) (sOut i) crp w (e i) out = .ok (shares i)) ∧
       ∃ g, t.evalM (fun x y => evkAggregate x y (recv x)) shares = .ok g ∧
         g.levelQ = out.levelQ ∧ g.levelP = out.levelP ∧
-        evkGenShare lvIn lvOut (t.eval (· + ·) sIn) (t.eval (· + ·) sOut) crp w (t.eval matAdd e) out
+        evkGenShare lvIn lvOut lvInP lvOutP (t.eval (· + ·) sIn) (t.eval (· + ·) sOut) crp w
+            (t.eval matAdd e) out
           = .ok { out with val := g.val } := by
   refine ⟨fun i => { out with val := evkVal (sIn i) (sOut i) crp w (e i) }, ?_, ?_⟩
   · intro i
-    exact evkGenShare_ok lvIn lvOut (sIn i) (sOut i) crp w (e i) out hl hs
-  · have hc : ∀ i ∈ t.leaves, Compat out.levelQ out.levelP (shapeOf crp)
+    exact evkGenShare_ok lvIn lvOut lvInP lvOutP (sIn i) (sOut i) crp w (e i) out hl hlp hs
+  · have hc : ∀ i ∈ t.leaves, Compat out.levelQ out.levelP out.base2 (shapeOf crp)
         ({ out with val := evkVal (sIn i) (sOut i) crp w (e i) } : GShare α) := by
       intro i hi
-      exact ⟨rfl, rfl, deg0_evkVal (sIn i) (sOut i) (shapeOf crp) crp w (e i) rfl hw (he i hi)⟩
+      exact ⟨rfl, rfl, rfl, deg0_evkVal (sIn i) (sOut i) (shapeOf crp) crp w (e i) rfl hw (he i hi)⟩
     obtain ⟨g, hg, cg, vg⟩ := evk_evalM_compat recv hrecv _ t hc
     refine ⟨g, hg, cg.hq, cg.hp, ?_⟩
-    rw [evkGenShare_ok _ _ _ _ _ _ _ _ hl hs, vg]
+    rw [evkGenShare_ok _ _ _ _ _ _ _ _ _ _ hl hlp hs, vg]
     have := evk_tree_val t sIn sOut e crp w
     rw [this]
     rfl
 
 /-- non-vacuity: two parties, two RNS digits with 1 and 2 power-of-two digits -/
-example := evk_collective_eq_single (α := Int) 1 1 [[2], [3, 4]] [[1], [5, 6]] ⟨1, 0, 8, [[[0]], [[0], [0]]]⟩
+example := evk_collective_eq_single (α := Int) 1 1 0 0 [[2], [3, 4]] [[1], [5, 6]] ⟨1, 0, 8, [[[0]], [[0], [0]]]⟩
     (fun i => Int.ofNat i) (fun i => 2 * Int.ofNat i) (fun _ => [[1], [1, -1]]) (.node (.leaf 0) (.leaf 1))
-    (by decide) (by decide) (by decide) (fun _ _ => by decide) id (fun _ h => h)
+    (by decide) (by decide) (by decide) (by decide) (fun _ _ => by decide) id (fun _ h => h)
 
-/-- **final key, uniform decomposition.** When every RNS digit has the same number `k` of power-of-two
-    digits, `GenEvaluationKey` copies every row: the key is `(share[i][j], crp[i][j])` everywhere. -/
-theorem evk_key_uniform {β : Type} (k r : Nat) (share : GShare β) (crp : Mat β) (evk : GShare β)
-    (hr : 0 < r) (hq : share.levelQ = evk.levelQ) (hp : share.levelP = evk.levelP)
-    (hm : Deg0 (List.replicate r k) share.val) (hc : shapeOf crp = List.replicate r k)
-    (hk : evk.val.map (fun row => row.map List.length) = List.replicate r (List.replicate k 2)) :
+/-- **final key.** For ANY decomposition shape (the number of power-of-two digits may differ from one
+    RNS digit to the next) `GenEvaluationKey` copies every row: the key is `(share[i][j], crp[i][j])`
+    everywhere, i.e. by `evk_collective_eq_single` and `evk_row` every row is a single-party row for
+    the ideal secrets with error `Σ e_i`. -/
+theorem evk_key_assembled {β : Type} (shape : List Nat) (share : GShare β) (crp : Mat β) (evk : GShare β)
+    (hq : share.levelQ = evk.levelQ) (hp : share.levelP = evk.levelP)
+    (hm : Deg0 shape share.val) (hc : shapeOf crp = shape)
+    (hk : evk.val.map (fun row => row.map List.length) = shape.map fun k => List.replicate k 2) :
     genEvaluationKey share crp evk = .ok { evk with val := evkAssemble share.val crp } := by
-  obtain ⟨r', rfl⟩ : ∃ r', r = r' + 1 := ⟨r - 1, by omega⟩
-  match hv : share.val, hm with
-  | m0 :: ms, hm =>
-    have hlen : m0.length = k := by
-      have := congrArg List.head? hm
-      simp [List.replicate_succ] at this
-      have h2 := congrArg List.length this
-      simpa using h2
-    have := keyRows_uniform k (r' + 1) (m0 :: ms) crp evk.val hm hc hk
-    simp [genEvaluationKey, hq, hp, hv, hlen, this]
+  have h1 : shapeOf share.val = shape := deg0_shapeOf shape _ hm
+  have h2 : shapeOf evk.val = shape := by
+    have := congrArg (List.map List.length) hk
+    simpa [shapeOf, Function.comp_def] using this
+  simp [genEvaluationKey, hq, hp, h1, h2, hc, keyRows_ok shape share.val crp evk.val hm hc hk]
 
 example : genEvaluationKey (α := Int) ⟨0, 0, 8, [[[1], [2]], [[3], [4]]]⟩ [[10, 20], [30, 40]]
     ⟨0, 0, 8, [[[0, 0], [0, 0]], [[0, 0], [0, 0]]]⟩ =
     .ok ⟨0, 0, 8, [[[1, 10], [2, 20]], [[3, 30], [4, 40]]]⟩ := by decide
 
-/-- **finding (model witness).** With a ragged decomposition whose first row is the shortest,
-    `GenEvaluationKey` silently leaves the extra rows of the key untouched (here: zero) … -/
-theorem genEvaluationKey_ragged_truncates :
+/-- the two former witnesses of the `len(m[0])` defect (first row shortest: rows silently dropped;
+    first row longest: panic) are now assembled completely -/
+theorem genEvaluationKey_ragged_ok :
     genEvaluationKey (α := Int) ⟨1, 0, 16, [[[1]], [[2], [3]]]⟩ [[10], [20, 30]]
       ⟨1, 0, 16, [[[0, 0]], [[0, 0], [0, 0]]]⟩
-      = .ok ⟨1, 0, 16, [[[1, 10]], [[2, 20], [0, 0]]]⟩
-    ∧ evkAssemble (α := Int) [[[1]], [[2], [3]]] [[10], [20, 30]] = [[[1, 10]], [[2, 20], [3, 30]]] := by
+      = .ok ⟨1, 0, 16, [[[1, 10]], [[2, 20], [3, 30]]]⟩
+    ∧ genEvaluationKey (α := Int) ⟨1, 0, 16, [[[2], [3]], [[1]]]⟩ [[20, 30], [10]]
+      ⟨1, 0, 16, [[[0, 0], [0, 0]], [[0, 0]]]⟩
+      = .ok ⟨1, 0, 16, [[[2, 20], [3, 30]], [[1, 10]]]⟩ := by
   decide
 
-/-- … and panics (index out of range) when the first row is the longest. -/
-theorem genEvaluationKey_ragged_panics :
-    genEvaluationKey (α := Int) ⟨1, 0, 16, [[[2], [3]], [[1]]]⟩ [[20, 30], [10]]
-      ⟨1, 0, 16, [[[0, 0], [0, 0]], [[0, 0]]]⟩ = .panic := by
-  decide
+/-- a share, CRP or key of another decomposition is rejected -/
+theorem genEvaluationKey_decomposition_rejected {β : Type} (share : GShare β) (crp : Mat β) (evk : GShare β)
+    (h : shapeOf share.val ≠ shapeOf crp ∨ shapeOf share.val ≠ shapeOf evk.val) :
+    genEvaluationKey share crp evk = .err := by
+  unfold genEvaluationKey
+  split; · rfl
+  split; · rfl
+  rfl
 
 /-! ## 4. Galois key -/
 
-/-- With an auxiliary modulus, `GaloisKeyGenProtocol.GenShare` is the evaluation-key share from `s` to
-    `σ⁻¹(s)` tagged with the element. -/
-theorem gal_share_eq_evk (sigInv : α → α) (skLvl : Nat) (s : α) (galEl : Nat) (crp w e : Mat α)
-    (out : GalShare α) (hp : 0 ≤ out.sh.levelP) :
-    galGenShare sigInv skLvl s galEl crp w e out =
-      (evkGenShare skLvl skLvl s (sigInv s) crp w e out.sh).bind fun sh => .ok ⟨galEl, sh⟩ := by
-  simp [galGenShare, Int.not_lt.mpr hp]
+/-- `GaloisKeyGenProtocol.GenShare` is the evaluation-key share from `s` to `σ⁻¹(s)` tagged with the
+    element, with or without auxiliary modulus. -/
+theorem gal_share_eq_evk (sigInv : α → α) (skLvl bufLvl : Nat) (skLvlP bufLvlP : Int) (s : α) (galEl : Nat)
+    (crp w e : Mat α) (out : GalShare α) :
+    galGenShare sigInv skLvl bufLvl skLvlP bufLvlP s galEl crp w e out =
+      (evkGenShare skLvl bufLvl skLvlP bufLvlP s (sigInv s) crp w e out.sh).bind fun sh => .ok ⟨galEl, sh⟩ :=
+  rfl
 
 /-- **Galois key = single-party key of the ideal secret.**  For a ring automorphism `σ⁻¹`
     (`X ↦ X^{g⁻¹}`), the aggregate of the parties' Galois shares is exactly the single-party share for
-    `Σ s_i` (output secret `σ⁻¹(Σ s_i)`), tagged with `g`. -/
-theorem gal_collective_eq_single (sigInv : α →+* α) (skLvl : Nat) (galEl : Nat) (crp w : Mat α)
+    `Σ s_i` (output secret `σ⁻¹(Σ s_i)`), tagged with `g` — for every `LevelP ≥ −1`. -/
+theorem gal_collective_eq_single (sigInv : α →+* α) (skLvl bufLvl : Nat) (skLvlP bufLvlP : Int)
+    (galEl : Nat) (crp w : Mat α)
     (out : GalShare α) (s : Nat → α) (e : Nat → Mat α) (t : AggTree)
-    (hp : 0 ≤ out.sh.levelP)
-    (hl : out.sh.levelQ ≤ skLvl) (hs : shapeOf out.sh.val = shapeOf crp)
+    (hl : out.sh.levelQ ≤ min skLvl bufLvl) (hlp : out.sh.levelP ≤ min skLvlP bufLvlP)
+    (hs : shapeOf out.sh.val = shapeOf crp)
     (hw : shapeOf w = shapeOf crp) (he : ∀ i ∈ t.leaves, shapeOf (e i) = shapeOf crp) :
     ∃ shares : Nat → GalShare α,
-      (∀ i, galGenShare sigInv skLvl (s i) galEl crp w (e i) out = .ok (shares i)) ∧
+      (∀ i, galGenShare sigInv skLvl bufLvl skLvlP bufLvlP (s i) galEl crp w (e i) out = .ok (shares i)) ∧
       ∃ g, t.evalM (fun x y => galAggregate x y x) shares = .ok g ∧ g.galEl = galEl ∧
-        galGenShare sigInv skLvl (t.eval (· + ·) s) galEl crp w (t.eval matAdd e) out
+        galGenShare sigInv skLvl bufLvl skLvlP bufLvlP (t.eval (· + ·) s) galEl crp w (t.eval matAdd e) out
           = .ok ⟨galEl, { out.sh with val := g.sh.val }⟩ := by
-  have hl' : out.sh.levelQ ≤ min skLvl skLvl := by simpa using hl
   refine ⟨fun i => ⟨galEl, { out.sh with val := evkVal (s i) (sigInv (s i)) crp w (e i) }⟩, ?_, ?_⟩
   · intro i
-    rw [gal_share_eq_evk _ _ _ _ _ _ _ _ hp, evkGenShare_ok _ _ _ _ _ _ _ _ hl' hs]
+    rw [gal_share_eq_evk, evkGenShare_ok _ _ _ _ _ _ _ _ _ _ hl hlp hs]
     rfl
   · have hc : ∀ i ∈ t.leaves,
         (⟨galEl, { out.sh with val := evkVal (s i) (sigInv (s i)) crp w (e i) }⟩ : GalShare α).galEl = galEl ∧
-        Compat out.sh.levelQ out.sh.levelP (shapeOf crp)
+        Compat out.sh.levelQ out.sh.levelP out.sh.base2 (shapeOf crp)
           ({ out.sh with val := evkVal (s i) (sigInv (s i)) crp w (e i) } : GShare α) := by
       intro i hi
-      exact ⟨rfl, rfl, rfl, deg0_evkVal (s i) (sigInv (s i)) (shapeOf crp) crp w (e i) rfl hw (he i hi)⟩
+      exact ⟨rfl, rfl, rfl, rfl, deg0_evkVal (s i) (sigInv (s i)) (shapeOf crp) crp w (e i) rfl hw (he i hi)⟩
     obtain ⟨g, hg, tg, _, vg⟩ := gal_evalM_compat galEl (fun x => x) (fun _ h => h) _ t hc
     refine ⟨g, hg, tg, ?_⟩
-    rw [gal_share_eq_evk _ _ _ _ _ _ _ _ hp, evkGenShare_ok _ _ _ _ _ _ _ _ hl' hs, vg]
+    rw [gal_share_eq_evk, evkGenShare_ok _ _ _ _ _ _ _ _ _ _ hl hlp hs, vg]
     have h1 := evk_tree_val t s (fun i => sigInv (s i)) e crp w
     rw [tree_map_add sigInv t s] at h1
     rw [h1]
     rfl
 
-/-- **finding.** Without auxiliary modulus (`LevelP = −1`: parameters without P, or an explicit
-    `LevelP: -1`) `GaloisKeyGenProtocol.GenShare` panics, whatever the other inputs — although
-    `EvaluationKeyGenProtocol.GenShare` and the single-party `GenGaloisKey` handle this case. -/
-theorem gal_noP_panics (sigInv : α → α) (skLvl : Nat) (s : α) (galEl : Nat) (crp w e : Mat α)
-    (out : GalShare α) (hp : out.sh.levelP < 0) :
-    galGenShare sigInv skLvl s galEl crp w e out = .panic := by
-  simp [galGenShare, hp]
+/-- non-vacuity without auxiliary modulus (`LevelP = −1`; formerly a panic): the share is produced -/
+theorem gal_noP_ok :
+    (galGenShare (α := Int) (fun x => -x) 1 1 (-1) (-1) 3 5 [[2], [7]] [[1], [1]] [[1], [-1]]
+      ⟨0, ⟨1, -1, 0, [[[0]], [[0]]]⟩⟩).isOk = true := by decide
 
 /-! ## 5. Relinearisation key -/
 
@@ -303,40 +309,46 @@ theorem mismatch_rejected_levelP {β : Type} [Add β] (s1 s2 s3 : GShare β)
   · rfl
   · rfl
 
-/-- `GenShare` rejects a CRP sampled for another decomposition, and a share above the keys' level -/
-theorem mismatch_rejected_crp (lvIn lvOut : Nat) (sIn sOut : α) (crp w e : Mat α) (out : GShare α)
-    (h : shapeOf out.val ≠ shapeOf crp) :
-    evkGenShare lvIn lvOut sIn sOut crp w e out = .err := by
+/-- **mismatch_rejected (decomposition).** Shares of different decompositions (different
+    `BaseTwoDecomposition` or different numbers of digits) are rejected by `AggregateShares`. -/
+theorem mismatch_rejected_decomposition {β : Type} [Add β] (s1 s2 s3 : GShare β)
+    (h : s1.base2 ≠ s2.base2 ∨ shapeOf s1.val ≠ shapeOf s2.val ∨ shapeOf s1.val ≠ shapeOf s3.val) :
+    evkAggregate s1 s2 s3 = .err := by
+  unfold evkAggregate
+  split; · rfl
+  split; · rfl
+  rfl
+
+/-- the two former witnesses (`BaseTwoDecomposition` 16 + 8: silently combined; 8 + 16: panic) -/
+example : evkAggregate (α := Int) ⟨0, 0, 16, [[[1], [2]]]⟩ ⟨0, 0, 8, [[[1], [2], [3], [4]]]⟩
+    ⟨0, 0, 16, [[[0], [0]]]⟩ = .err ∧
+  evkAggregate (α := Int) ⟨0, 0, 8, [[[1], [2], [3], [4]]]⟩ ⟨0, 0, 16, [[[1], [2]]]⟩
+    ⟨0, 0, 8, [[[0], [0], [0], [0]]]⟩ = .err := by decide
+
+/-- `GenShare` rejects a CRP sampled for another decomposition, a share above the keys' `LevelQ` and a
+    share above the keys' `LevelP` -/
+theorem mismatch_rejected_crp (lvIn lvOut : Nat) (lpIn lpOut : Int) (sIn sOut : α) (crp w e : Mat α)
+    (out : GShare α) (h : shapeOf out.val ≠ shapeOf crp) :
+    evkGenShare lvIn lvOut lpIn lpOut sIn sOut crp w e out = .err := by
   unfold evkGenShare
   split; · rfl
   split; · rfl
   split; · rfl
   rfl
 
-theorem mismatch_rejected_sk_level (lvIn lvOut : Nat) (sIn sOut : α) (crp w e : Mat α) (out : GShare α)
-    (h : out.levelQ > min lvIn lvOut) :
-    evkGenShare lvIn lvOut sIn sOut crp w e out = .err := by
+theorem mismatch_rejected_sk_level (lvIn lvOut : Nat) (lpIn lpOut : Int) (sIn sOut : α) (crp w e : Mat α)
+    (out : GShare α) (h : out.levelQ > min lvIn lvOut) :
+    evkGenShare lvIn lvOut lpIn lpOut sIn sOut crp w e out = .err := by
   simp [evkGenShare, h]
 
-/-- **finding.** Shares of different decompositions (same levels) are NOT rejected by
-    `AggregateShares`: with `BaseTwoDecomposition` 16 and 8 (2 resp. 4 digits) they are combined … -/
-theorem evk_agg_decomposition_combined :
-    ∃ s1 s2 s3 : GShare Int, s1.base2 ≠ s2.base2 ∧ shapeOf s1.val ≠ shapeOf s2.val ∧
-      s1.levelQ = s2.levelQ ∧ s1.levelP = s2.levelP ∧ (evkAggregate s1 s2 s3).isOk = true :=
-  ⟨⟨0, 0, 16, [[[1], [2]]]⟩, ⟨0, 0, 8, [[[1], [2], [3], [4]]]⟩, ⟨0, 0, 16, [[[0], [0]]]⟩, by decide⟩
+theorem mismatch_rejected_sk_levelP (lvIn lvOut : Nat) (lpIn lpOut : Int) (sIn sOut : α) (crp w e : Mat α)
+    (out : GShare α) (h : out.levelP > min lpIn lpOut) :
+    evkGenShare lvIn lvOut lpIn lpOut sIn sOut crp w e out = .err := by
+  unfold evkGenShare
+  split; · rfl
+  rfl
 
-/-- … or, the other way round, the call panics. -/
-theorem evk_agg_decomposition_panics :
-    ∃ s1 s2 s3 : GShare Int, s1.base2 ≠ s2.base2 ∧ s1.levelQ = s2.levelQ ∧ s1.levelP = s2.levelP ∧
-      evkAggregate s1 s2 s3 = .panic :=
-  ⟨⟨0, 0, 8, [[[1], [2], [3], [4]]]⟩, ⟨0, 0, 16, [[[1], [2]]]⟩, ⟨0, 0, 8, [[[0], [0], [0], [0]]]⟩, by decide⟩
-
-/-- **finding.** The `LevelP` test of `GenShare` compares `shareOut.LevelP()` with itself: whatever the
-    share's `LevelP`, it is never the reason for an error. -/
-theorem genshare_levelP_unchecked (lvIn lvOut : Nat) (sIn sOut : α) (crp w e : Mat α) (out : GShare α)
-    (lp : Int) (hl : out.levelQ ≤ min lvIn lvOut) (hs : shapeOf out.val = shapeOf crp) :
-    (evkGenShare lvIn lvOut sIn sOut crp w e { out with levelP := lp }).isOk = true := by
-  rw [evkGenShare_ok lvIn lvOut sIn sOut crp w e { out with levelP := lp } hl hs]; rfl
+example : (⟨1, 0, 0, []⟩ : GShare Int).levelP > min (0 : Int) (-1) := by decide
 
 end ring
 
@@ -370,12 +382,12 @@ open Lattigo.Props.C14 in
 #print axioms Lattigo.Props.C14.cpk_fold_eq_single
 #print axioms Lattigo.Props.C14.evk_row
 #print axioms Lattigo.Props.C14.evk_collective_eq_single
-#print axioms Lattigo.Props.C14.evk_key_uniform
-#print axioms Lattigo.Props.C14.genEvaluationKey_ragged_truncates
-#print axioms Lattigo.Props.C14.genEvaluationKey_ragged_panics
+#print axioms Lattigo.Props.C14.evk_key_assembled
+#print axioms Lattigo.Props.C14.genEvaluationKey_ragged_ok
+#print axioms Lattigo.Props.C14.genEvaluationKey_decomposition_rejected
 #print axioms Lattigo.Props.C14.gal_share_eq_evk
 #print axioms Lattigo.Props.C14.gal_collective_eq_single
-#print axioms Lattigo.Props.C14.gal_noP_panics
+#print axioms Lattigo.Props.C14.gal_noP_ok
 #print axioms Lattigo.Props.C14.rkg_round_one_collective
 #print axioms Lattigo.Props.C14.rkg_round_two_collective
 #print axioms Lattigo.Props.C14.rkg_row
@@ -384,7 +396,6 @@ open Lattigo.Props.C14 in
 #print axioms Lattigo.Props.C14.mismatch_rejected_levelP
 #print axioms Lattigo.Props.C14.mismatch_rejected_crp
 #print axioms Lattigo.Props.C14.mismatch_rejected_sk_level
-#print axioms Lattigo.Props.C14.evk_agg_decomposition_combined
-#print axioms Lattigo.Props.C14.evk_agg_decomposition_panics
-#print axioms Lattigo.Props.C14.genshare_levelP_unchecked
+#print axioms Lattigo.Props.C14.mismatch_rejected_decomposition
+#print axioms Lattigo.Props.C14.mismatch_rejected_sk_levelP
 #print axioms Lattigo.Props.C14.crs_determinism
